@@ -152,9 +152,8 @@ class Std(Scenario):
                     if left('disconnect') > 0 and c.close_req is None:
                         out.append(('disconnect', a))
                 if c.open:
-                    if left('connack') > 0 and B.get('dupconnack'):
-                        if u.get('dupconnack', 0) < B['dupconnack']:
-                            out.append(('dupconnack', a, 0, False))
+                    if left('dupconnack') > 0:
+                        out.append(('dupconnack', a, 0, True))
                     out.extend(self._acks(w, a, c, left))
                     if left('inpub') > 0:
                         for x in self.inpubs:
